@@ -516,6 +516,8 @@ class Producers:
         k = e.get("k")
         if k in ("ref", "paren", "unary", "try", "cast", "return"):
             return self.expr(e["expr"], f, env, stack, depth + 1)
+        if k == "path" and lit_str(e) is not None:
+            return lit_hazards(lit_str(e))        # a string literal that was given a const name
         if k == "lit":
             if e["lit"]["t"] in ("str", "char"):
                 return lit_hazards(e["lit"]["v"])
